@@ -231,21 +231,39 @@ func WriteSfm(sfmData *structs.SegFullMeta) {
 		return
 	}
 
-	sfmFd, err := os.OpenFile(sfmFname, os.O_WRONLY|os.O_CREATE|os.O_TRUNC, 0644)
+	// Write to a temporary file and rename it over the sfm file, so that the sfm file
+	// always holds a complete version. The sfm file is rewritten on every block flush;
+	// if it were truncated in place, a crash before the new contents are written would
+	// leave it empty and the whole unrotated segment would not be recovered on restart.
+	tmpSfmFname := sfmFname + ".tmp"
+	sfmFd, err := os.OpenFile(tmpSfmFname, os.O_WRONLY|os.O_CREATE|os.O_TRUNC, 0644)
 	if err != nil {
-		log.Errorf("WriteSfm: failed to open a sfm filename=%v: err=%v", sfmFname, err)
+		log.Errorf("WriteSfm: failed to open a sfm filename=%v: err=%v", tmpSfmFname, err)
 		return
 	}
-	defer sfmFd.Close()
 
 	if _, err := sfmFd.Write(sfmJson); err != nil {
-		log.Errorf("WriteSfm: failed to write sfm: %v: err: %v", sfmFname, err)
+		log.Errorf("WriteSfm: failed to write sfm: %v: err: %v", tmpSfmFname, err)
+		sfmFd.Close()
 		return
 	}
 
 	err = sfmFd.Sync()
 	if err != nil {
-		log.Errorf("WriteSfm: failed to sync sfm: %v: err: %v", sfmFname, err)
+		log.Errorf("WriteSfm: failed to sync sfm: %v: err: %v", tmpSfmFname, err)
+		sfmFd.Close()
+		return
+	}
+
+	err = sfmFd.Close()
+	if err != nil {
+		log.Errorf("WriteSfm: failed to close sfm: %v: err: %v", tmpSfmFname, err)
+		return
+	}
+
+	err = os.Rename(tmpSfmFname, sfmFname)
+	if err != nil {
+		log.Errorf("WriteSfm: failed to rename %v to %v: err: %v", tmpSfmFname, sfmFname, err)
 		return
 	}
 }
